@@ -182,10 +182,7 @@ def run_case(case, chooser, max_steps=100_000, max_time=20000.0, keep_log=False)
     res.world = w
     res.sched = s
     res.ctx = ctx
-    res.blocked = []
-    for t in s.tasks:
-        if t.op is not None and t.state != "done" and (t.proc is None or t.proc.alive):
-            res.blocked.append((t.op, t.blocked_label, t.proc.name if t.proc else None))
+    res.blocked = list(w.blocked_snapshot)
     res.procs = {p.name: {"alive": p.alive, "status": p.exit_status, "exit_time": p.exit_time,
                           "exit_seq": p.exit_seq, "crashes": list(p.thread_crashes), "info": dict(p.info),
                           "parent": p.parent.name if p.parent else None, "stopped": p.stopped,
